@@ -280,6 +280,23 @@ def replay_c18(state):
                 [c for c in drive.walk_elements(shared) if isinstance(c, ObjectMeta)]))))
         except ValueError:
             pass
+    # the representation taken, something BELOW the element changed, the representation taken again
+    for t in targets[:2]:
+        try:
+            import inspect
+            below = [x for x in drive.walk_elements(t) if x is not t and not isinstance(x, ObjectMeta)
+                     and "description" in inspect.signature(type(x).__init__).parameters]
+            if not below:
+                continue
+            repr(t)
+            saved = below[-1].description
+            below[-1].description = "changed below"
+            try:
+                obs["reprs"].append(dict(how="after-nested-change", **_repr_obs(t, ns)))
+            finally:
+                below[-1].description = saved
+        except Exception:  # noqa
+            pass
     # one property object declared twice under different names (its JSON name stays the first)
     props0 = getattr(el, "properties", None)
     if isinstance(props0, dict) and props0:
